@@ -1,4 +1,5 @@
 let lookup (p : string) : BinNums.coq_Z list -> BinNums.coq_Z list =
   match p with
   | "C17" -> Extract.run_C17
+  | "C01" | "C07" -> Extract.run_C01
   | _ -> failwith ("unknown property " ^ p)
